@@ -70,8 +70,16 @@ def addOrder (excl : Option Nat) (b : Buckets) (o : XOrder) : Buckets :=
       | .back => { b with mocLose := b.mocLose - o.liability }
       | .lay => { b with mocWin := b.mocWin - o.liability }
 
+/-- the prospective order is counted in full whatever status an earlier attempt left it in (a refused
+    order that is placed again still carries VIOLATION, which also counts as complete): the status
+    filter and `complete` do not apply to it; the exclusion does -/
+def addNew (excl : Option Nat) (b : Buckets) (o : XOrder) : Buckets :=
+  if excl = some o.id then b else addOrder none b { o with status := none, complete := false }
+
 def buckets (orders : List XOrder) (excl : Option Nat) (newOrder : Option XOrder) : Buckets :=
-  (orders ++ newOrder.toList).foldl (addOrder excl) {}
+  match newOrder with
+  | none => orders.foldl (addOrder excl) {}
+  | some n => addNew excl ((orders.filter fun o => o.id ≠ n.id).foldl (addOrder excl) {}) n
 
 def sumStake (l : List (Rat × Rat)) : Rat := sumRat (l.map fun (_, s) => s)
 def sumRisk (l : List (Rat × Rat)) : Rat := sumRat (l.map fun (p, s) => (p - 1) * s)
